@@ -224,10 +224,10 @@ func bvScalar32(r *Rng, spec int) []byte {
 
 func bvP2wpkh(r *Rng) []byte { return append([]byte{0x00, 0x14}, r.Bytes(20)...) }
 
+// base assets are the same in every scenario (a history spends different coins of the same assets)
 func bvBaseAsset(seed uint64, k int) []byte {
-	var b [16]byte
-	binary.LittleEndian.PutUint64(b[:], seed)
-	binary.LittleEndian.PutUint64(b[8:], uint64(k))
+	var b [8]byte
+	binary.LittleEndian.PutUint64(b[:], uint64(k))
 	h := sha256.Sum256(append([]byte("verif-asset"), b[:]...))
 	return h[:]
 }
